@@ -12,13 +12,14 @@ RULE = ("every batch-free program (leaves: child task | ConstFuture; a body = 0.
         "nested / one-element structures, empty list / tuple / dict, `yield None`, raise at any statement gap, try/except "
         "around any statement range with an empty handler or a handler that yields another child task, and a plain "
         "synchronous call of an @asynq() function at any gap), each under 4 call styles (plain function, bound method, "
-        "@async_proxy returning fn.asynq(), mixed by task id mod 4 over function / method / proxy / asynq.async_call; constants "
-        "through an @async_proxy returning ConstFuture in the proxy styles) x 3 asyncio_fn modes (none / tasks with even id / tasks with odd id are declared with an explicit "
-        "hand-written async def), both builds. Each (program, configuration) is executed twice: fn(code) on the asynq "
-        "scheduler and `await fn.asyncio(code)` from a driver coroutine on one long-lived event loop stepped one iteration "
-        "at a time. evals = executions (both engines); states = (program, configuration) pairs judged; transitions = body "
-        "steps (starts + resumptions at yields) over all executions; non-trivial = programs with >=2 tasks or a failure "
-        "(raise / refused synchronous call)")
+        "@async_proxy returning fn.asynq(), mixed by task id mod 4 over function / method / proxy / asynq.async_call; "
+        "constants are ConstFuture / a non-generator @asynq() method / an @async_proxy returning ConstFuture, by style) x 3 "
+        "asyncio_fn modes (none / tasks with even id / tasks with odd id are declared with an explicit hand-written async "
+        "def), both builds. Each (program, configuration) is executed twice: fn(code) on the asynq scheduler and "
+        "`await fn.asyncio(code)` from a driver coroutine on one long-lived event loop stepped one iteration at a time next "
+        "to an unrelated watcher coroutine. evals = executions (both engines); states = (program, configuration) pairs "
+        "judged; transitions = body steps (starts + resumptions at yields) over all executions; non-trivial = programs with "
+        ">=2 tasks or a failure (raise / refused synchronous call)")
 EXPLANATION = ("exhaustive product of the bounded batch-free program family with call styles and asyncio_fn modes; every "
                "execution on both real engines is compared with the sequential evaluator R1 and with each other, the body "
                "log is checked for await-all-before-raise, and asynq.is_asyncio_mode() is sampled at every body step and "
@@ -48,8 +49,7 @@ MENU_SYNC = MENU + ["ins:sync"]
 INFO_MENU = ["ins:res", "leaf:ef", "leaf:lzok", "leaf:lzraise"]
 
 ALL_CFG = [[s, a] for a in (0, 1, 2) for s in (0, 1, 2, 3)]
-CFG_A0 = [[s, 0] for s in (0, 1, 2, 3)]
-CFG_FEW = [[0, 0], [3, 1], [3, 2]]
+CFG_FEW = [[0, 0], [3, 0], [3, 1], [3, 2]]
 CFG_ONE = [[3, 0]]
 
 # (max size n, max deviations k, menu, configurations)
@@ -449,7 +449,9 @@ def judge(ref, style, aio, out):
     if any(ra.flags_watch):
         found.append(("mode-flag-leak-to-other-coroutine", "is_asyncio_mode() read True in an unrelated coroutine on the same loop "
                       "(samples per loop iteration: %r)" % (ra.flags_watch,)))
-    if any(rs.flags_outer) or any(ev[-1] for ev in rs.log):
+    if not all(ra.const_flags):
+        found.append(("mode-flag-off-inside", "is_asyncio_mode() is False inside a non-generator @asynq() method run via .asyncio()"))
+    if any(rs.flags_outer) or any(rs.const_flags) or any(ev[-1] for ev in rs.log):
         found.append(("mode-flag-on-in-sync", "is_asyncio_mode() is True during/after fn(code) on the asynq scheduler"))
     nat = ra.native
     first = {}
